@@ -457,6 +457,25 @@ async fn main() {
                     if !bad_v.is_empty() { failures.push(json!({"witness": "C16:mismatch-after-refused-reschedule", "failure": bad_v, "case": json!({"n": n, "leader": leader, "bad_follower": bad, "sched": o.sched, "log": o.log})})); }
                     continue;
                 }
+                // corpus: three parties, the mismatch in the program or in the LEADER field, and both arrival orders at the mismatching follower made
+                // deterministic: its own schedule first (the normal scenario), or the leader's validate first (the follower is scheduled late)
+                if (7..15).contains(&case) {
+                    let k = case - 7; let (n, leader, leader_kind, late) = (3usize, k % 2, (k / 2) % 2 == 1, k / 4 == 1); let bad = (leader + 1) % n; let outs = vec![true; 3];
+                    let mut progs = vec![P3; n]; let mut leaders = vec![leader; n];
+                    if leader_kind { leaders[bad] = (leader + 2) % n; } else { progs[bad] = "pub fn main(a: u8, b: u8, c: u8) -> u8 { a ^ b ^ c }"; }
+                    if late { *LATE.lock().unwrap() = Some(bad); } let mut fired = false;
+                    let o = scenario(n, leader, &outs, false, &progs, &leaders, 1, &mut r, None, move |step, idle| if late && !fired && step >= n - 1 && idle >= 2 { fired = true; Some(Inject::LateSchedule(bad)) } else { None }).await; execs += 1;
+                    *LATE.lock().unwrap() = None; *LATE_POLICY.lock().unwrap() = None; correspond(&mut m, &o, None, &mut disagreements, &mut steps);
+                    let what = format!("{}/{}", if leader_kind { "leader" } else { "program" }, if late { "validate-first" } else { "schedule-first" });
+                    *dist.entry(format!("mismatch3:{what}")).or_default() += 1; distinct.insert(format!("m3 {what} {leader}"));
+                    let mut bad_v = vec![];
+                    if o.sched[bad] == "Ok" { bad_v.push("mismatching follower's schedule returned Ok".to_string()); }
+                    if o.sched[leader] == "Ok" { bad_v.push("leader's schedule returned Ok".to_string()); }
+                    if o.outputs.iter().any(|(_, s)| s.starts_with("Ok(")) { bad_v.push(format!("a successful result was delivered: {:?}", o.outputs)); }
+                    if o.msgs != 0 { bad_v.push(format!("{} MPC messages exchanged", o.msgs)); }
+                    if !bad_v.is_empty() { failures.push(json!({"witness": "C16:mismatch-corpus", "failure": bad_v, "case": json!({"n": n, "leader": leader, "bad_follower": bad, "what": what, "sched": o.sched, "log": o.log})})); }
+                    continue;
+                }
                 let bad_follower = (leader + 1 + r.below(n as u64 - 1) as usize) % n; let kind = if case < 5 { case as u64 } else { r.below(5) };
                 let mut progs = vec![prog; n]; let mut leaders = vec![leader; n]; let other = if n == 2 { "pub fn main(a: u8, b: u8) -> u8 { a ^ b }" } else { "pub fn main(a: u8, b: u8, c: u8) -> u8 { a ^ b ^ c }" };
                 let what = match kind { 0 => { progs[bad_follower] = other; "program" } 1 => { leaders[bad_follower] = (0..n).find(|p| *p != leader && *p != bad_follower).unwrap_or(leader); if leaders[bad_follower] == leader { progs[bad_follower] = other; "program" } else { "leader" } }
